@@ -52,7 +52,7 @@ def run(ctx):
     cases = os.path.join(ctx.work, "c05_cases.ndjson")
     # ---- leg M: the design satisfies the monitor for every configuration of the scope; cases are emitted on the way
     r = ctx.model_check(d, "MCKernelPDT", "MCKernelPDTQuick" if q else "MCKernelPDTFull", env={"CASES": cases},
-                        workers=4 if q else 16, timeout=240 if q else 1700)
+                        workers=6 if q else 16, timeout=240 if q else 1700)
     if not q:
         # vacuity guard: every action of the model must have been taken (measured on the reduced scope: -coverage slows TLC)
         r = ctx.tlc(d, "MCKernelPDT", "MCKernelPDTQuick", env={"CASES": os.path.join(ctx.work, "c05_cov_cases.ndjson")},
@@ -63,7 +63,7 @@ def run(ctx):
         ctx.expect_model_violation(d, "MCKernelPDT", "MCKernelPDTBug_" + b, workers=2, timeout=240)
     # ---- leg G: replay the emitted configurations on the real vmm.Init
     gcases = os.path.join(ctx.work, "c05_gcases.ndjson")
-    total, used = vb.sample_lines(cases, gcases, 2500 if q else 0, ctx.seed)
+    total, used = vb.sample_lines(cases, gcases, 2000 if q else 0, ctx.seed)
     ctx.cov["legs"]["emitted-cases"] = {"emitted": total, "replayed": used}
     trg = os.path.join(ctx.work, "c05_trace_g.ndjson")
     rc, out, _ = ctx.gotest("kernel", "mm/vmm", HARNESS, "TestVerifC05Cases",
@@ -73,7 +73,7 @@ def run(ctx):
     # ---- leg T: random section tables at real scale
     trt = os.path.join(ctx.work, "c05_trace_t.ndjson")
     rc, out, _ = ctx.gotest("kernel", "mm/vmm", HARNESS, "TestVerifC05Random",
-                            env={"TRACE_OUT": trt, "NTRACES": 120 if q else 4000, "VERIF_LEG": "T-random"}, timeout=600)
+                            env={"TRACE_OUT": trt, "NTRACES": 80 if q else 4000, "VERIF_LEG": "T-random"}, timeout=600)
     if rc != 0:
         raise vlib.Broken("C05 random harness failed:\n" + out[-3000:])
     # ---- leg V: the TLA+ monitor judges every recorded event (both legs in one batch of TLC processes)
@@ -83,7 +83,7 @@ def run(ctx):
             with open(p) as g:
                 f.write(g.read())
     acc, nev, mism = ctx.validate_traces("KernelPDTTrace", "KernelPDTTrace", tra, ("vmm",), name="V-G+T",
-                                         parallel=5 if q else 16, timeout=1200)
+                                         parallel=3 if q else 16, timeout=1200)
     record(ctx, "G-cases", trg)
     record(ctx, "T-random", trt)
     seen = {}
